@@ -69,7 +69,7 @@ PROPS = {
                      more=["Properties/C06outcome.v", "Properties/C02calls.v", "Properties/C02seal.v"]),
     "C07": exec_prop("C07", {"R_C07": "mon", "R_eager": "mon"}, extra="cyclic=1,fanout=1", more=["Properties/C07progress.v", "Properties/C07term.v"]),
     "C13": exec_prop("C13", {"R_C13": "mon", "R_C13s": "mon", "R_calls": "mon", "R_C01": "mon"}, extra="prompts=1",
-                     more=["Properties/C02calls.v", "Properties/C01deps.v"]),
+                     more=["Properties/C13status.v", "Properties/C02calls.v", "Properties/C01deps.v"]),
     "C14": exec_prop("C14", {"R_C14": "mon", "R_C02": "mon", "R_waits": "mon", "R_calls": "mon"},
                      more=["Properties/C14defer.v", "Properties/C02seal.v", "Properties/C02calls.v"]),
 }
